@@ -43,11 +43,12 @@ VARIABLES cfg,               \* the configuration (never changes)
 
 vars == <<cfg, allowed, q, futs, us, wt, cs, promise, notif, clog, obs>>
 
-DataOps == {"buf", "item", "big", "flush"}
+DataOps == {"buf", "nul", "item", "big", "flush"}
 NoFault == [k |-> "none", at |-> 0]
 
 (* a configuration:
-   script  sequence of "buf" (operator()(Buffer&&) with one object), "item" (operator()(Item)), "big" (an item
+   script  sequence of "buf" (operator()(Buffer&&) with one object), "nul" (operator()(Buffer&&) with a buffer the
+           format encodes to nothing, e.g. one that holds only an Area), "item" (operator()(Item)), "big" (an item
            that does not fit into the internal buffer), "flush", "close"; the destructor always follows
    hdr,trl the format writes a header string / a trailer string (XML: both, PBF: header, OPL: none)
    defer   the encoder collects the objects and hands over one block in write_end (PBF with less than a block full)
@@ -58,7 +59,9 @@ NoFault == [k |-> "none", at |-> 0]
            | ehdr | ebuf@n | eend (encoder throws in the user thread in write_header / n-th write_buffer / write_end)
    pool    blocks are encoded by pool workers (their futures become ready later)
    maxQ    bound of the output queue;  cap  items the internal buffer holds
-   fdfix   TRUE: compressors close the descriptor on every failure path (the repaired code) *)
+   fdfix   TRUE: compressors close the descriptor on every failure path (the repaired code)
+   emptyfix TRUE: a block that would be encoded as the empty string is not handed over (the repaired code);
+           FALSE: as shipped, the empty string travels through the queue, where it is the end-of-data marker *)
 
 -----------------------------------------------------------------------------
 (* bytes on disk, in units: one unit for header / trailer / gzip-bzip2 framing, two per object *)
@@ -121,6 +124,7 @@ FlushA(c, p, i, st) ==
 
 DataA(c, p, i, op, st) ==
   CASE op = "flush" -> FlushA(c, p, i, st)
+    [] op = "nul"   -> FlushA(c, p, i, st)                  \* nothing to write: no block, no string
     [] op = "buf"   -> LET f == FlushA(c, p, i, st) IN IF f.thrown # "none" THEN f ELSE BlockA(c, f.st, 1)
     [] op = "item"  -> IF st.ibuf < c.cap THEN [st |-> [st EXCEPT !.ibuf = @ + 1], thrown |-> "none"]
                        ELSE LET f == FlushA(c, p, i, st) IN
@@ -163,7 +167,7 @@ BlocksAt(c, i, ibuf) ==
   ELSE LET op == c.script[i] IN
     CASE op = "buf"   -> fl \o <<<<i>>>> \o BlocksAt(c, i + 1, <<>>)
       [] op = "item"  -> IF Len(ibuf) < c.cap THEN BlocksAt(c, i + 1, Append(ibuf, i)) ELSE <<ibuf>> \o BlocksAt(c, i + 1, <<i>>)
-      [] op = "flush" -> fl \o BlocksAt(c, i + 1, <<>>)
+      [] op \in {"flush", "nul"} -> fl \o BlocksAt(c, i + 1, <<>>)
       [] OTHER        -> fl
 Blocks(c) == IF c.defer THEN <<>> ELSE BlocksAt(c, 1, <<>>)
 
@@ -225,6 +229,7 @@ UCall == /\ us.pc = "idle"
                  ELSE /\ clog' = clog
                       /\ us' = [us EXCEPT !.pc = "run", !.todo =
                                  CASE op = "flush" -> FlushOps \o <<"retok">>
+                                   [] op = "nul"   -> FlushOps \o <<"blkN", "retok">>
                                    [] op = "buf"   -> FlushOps \o <<"blkB", "retok">>
                                    [] op = "item"  -> IF Len(us.ibuf) < cfg.cap THEN <<"add", "retok">> ELSE FlushOps \o <<"add", "retok">>
                                    [] op = "big"   -> FlushOps \o <<"throw">>]
@@ -255,6 +260,12 @@ UBlkI == /\ Op("blkI")
 UBlkB == /\ Op("blkB")
          /\ Block(<<us.i>>, us)
          /\ UNCHANGED <<cfg, allowed, q, wt, cs, promise, notif, clog>>
+(* write_buffer() with a buffer that is encoded as the empty string.  Repaired code: nothing is handed over.  As shipped:
+   the pool task's future is pushed like any other block; PBF only collects objects, so nothing happens there. *)
+UBlkN == /\ Op("blkN")
+         /\ IF cfg.emptyfix \/ cfg.defer THEN /\ Pop(us) /\ futs' = futs
+            ELSE PushNew(Fut("data", <<>>, ~cfg.pool, FALSE), [us EXCEPT !.nblk = @ + 1])
+         /\ UNCHANGED <<cfg, allowed, q, wt, cs, promise, notif, clog, obs>>
 UAdd == /\ Op("add")                                                                 \* m_buffer.push_back(item)
         /\ Pop([us EXCEPT !.ibuf = Append(@, us.i)])
         /\ UNCHANGED <<cfg, allowed, q, futs, wt, cs, promise, notif, clog, obs>>
@@ -301,7 +312,7 @@ UJoin == /\ Op("join") /\ wt.pc = "done"                                        
          /\ us' = [us EXCEPT !.pc = "gone", !.todo = <<>>]
          /\ UNCHANGED <<cfg, allowed, q, futs, wt, cs, promise, notif, obs>>
 
-UNext == UCall \/ UHdr \/ UChk \/ UBlkI \/ UBlkB \/ UAdd \/ UThrow \/ UEnd \/ UClosed \/ UEod \/ UXPush \/ UPushChk \/ UPushEnq
+UNext == UCall \/ UHdr \/ UChk \/ UBlkI \/ UBlkB \/ UBlkN \/ UAdd \/ UThrow \/ UEnd \/ UClosed \/ UEod \/ UXPush \/ UPushChk \/ UPushEnq
          \/ UGet \/ URetOk \/ URetExc \/ UJoin
 
 (* ---- pool workers: complete pending futures in any order ---- *)
@@ -363,9 +374,9 @@ WWait == /\ wt.pc = "wait" /\ (q.items # <<>> \/ ~q.inUse)                      
                  /\ q' = [q EXCEPT !.items = Tail(@)]
          /\ UNCHANGED <<cfg, allowed, futs, us, cs, promise, notif, clog, obs>>
 WGet == /\ wt.pc = "get" /\ futs[wt.cur].ready                                       \* data_future.get()
-        /\ wt' = CASE futs[wt.cur].k = "data" -> [wt EXCEPT !.pc = "write"]
+        /\ wt' = CASE futs[wt.cur].k = "data" /\ futs[wt.cur].units # <<>> -> [wt EXCEPT !.pc = "write"]
                    [] futs[wt.cur].k = "exc"  -> [wt EXCEPT !.pc = "catch"]
-                   [] futs[wt.cur].k = "eod"  -> [wt EXCEPT !.pc = "sd0", !.nxt = "cclose"]   \* pop() shuts the queue down at the end marker
+                   [] OTHER -> [wt EXCEPT !.pc = "sd0", !.nxt = "cclose"]   \* pop() shuts the queue down at the end marker = ANY empty string
         /\ UNCHANGED <<cfg, allowed, q, futs, us, cs, promise, notif, clog, obs>>
 WWrite == /\ wt.pc = "write"                                                         \* m_compressor->write(data)
           /\ \E f \in FlushChoices(cs, futs[wt.cur].units) :
